@@ -43,7 +43,11 @@ func (l *HealthCheckTest) DecodeMapstructure(value interface{}) error {
 	case []interface{}:
 		seq := make([]string, len(v))
 		for i, e := range v {
-			seq[i] = e.(string)
+			word, ok := e.(string)
+			if !ok {
+				return fmt.Errorf("unexpected value type %T for healthcheck.test item", e)
+			}
+			seq[i] = word
 		}
 		*l = seq
 	default:
